@@ -156,6 +156,8 @@ impl C09 {
         let mut spec = ParamSpec::plain(c.method);
         let params_none = spec.build();
         spec.policy = if c.all_prayers { gen::P_NGD_ALL } else { gen::P_NGD_FI_INV };
+        // history independence: a sibling call (same policy, one argument changed) on this thread first
+        prime(&c.site, &spec, c.date, None, prime_selector(&c.site, c.date));
         let got = compute(&c.site, &spec, c.date, None);
         let conv = compute_p(&c.site, &params_none, c.date, None);
         let missing = conv[&Prayer::Fajr].is_err() || conv[&Prayer::Isha].is_err();
